@@ -46,6 +46,7 @@ pub struct Probes {
     pub resources_checked: u64,
     pub shift_latest_tight: u64,
     pub open_tours: u64,
+    pub clustered_acts: u64,
 }
 
 impl Probes {
@@ -55,7 +56,7 @@ impl Probes {
             tours, activities, multi_activity_stops, waiting_acts, tw_tight, cap_tight, dist_limit_tight,
             dur_limit_tight, size_limit_tight, reload_acts, break_acts, tours_too_ambiguous, multi_jobs_assigned, unassigned,
             skipped_time_replay, tags_checked, order_checked, groups_checked, compat_checked, skills_checked,
-            unreachable_checked, relations_checked, resources_checked, shift_latest_tight, open_tours
+            unreachable_checked, relations_checked, resources_checked, shift_latest_tight, open_tours, clustered_acts
         );
     }
     pub fn to_json(&self) -> serde_json::Value {
@@ -64,7 +65,7 @@ impl Probes {
             tours, activities, multi_activity_stops, waiting_acts, tw_tight, cap_tight, dist_limit_tight,
             dur_limit_tight, size_limit_tight, reload_acts, break_acts, tours_too_ambiguous, multi_jobs_assigned, unassigned,
             skipped_time_replay, tags_checked, order_checked, groups_checked, compat_checked, skills_checked,
-            unreachable_checked, relations_checked, resources_checked, shift_latest_tight, open_tours
+            unreachable_checked, relations_checked, resources_checked, shift_latest_tight, open_tours, clustered_acts
         )
     }
 }
@@ -401,8 +402,11 @@ fn check_tour_inner(m: &PModel, ti: usize, t: &STour, assign: &BTreeMap<usize, u
     if flat.is_empty() || flat[0].act.job_id != "departure" {
         return None;
     }
+    // a tour with a clustered stop (parking + commutes, service times changed by the serving policy): only its
+    // time-independent rules are judged
+    let clustered_tour = t.stops.iter().any(|s| s.has_parking) || flat.iter().any(|f| f.act.has_commute);
     let unsupported = m.has_required_breaks && !shift.breaks.iter().all(|b| b.optional)
-        || m.has_clustering
+        || clustered_tour
         || m.has_recharges
         || t.stops.iter().any(|s| s.loc.is_none() || s.has_parking)
         || flat.iter().any(|f| f.act.has_commute);
@@ -442,7 +446,7 @@ fn check_tour_inner(m: &PModel, ti: usize, t: &STour, assign: &BTreeMap<usize, u
             probes.size_limit_tight += 1;
         }
         if n_tour_acts > limit {
-            issue(out, F, "tour-size", format!("tour {ti}: {n_tour_acts} activities exceed tourSize {limit}"));
+            out.push(Issue { prop: F, rule: "tour-size", msg: format!("tour {ti}: {n_tour_acts} activities exceed tourSize {limit}"), tag: if clustered_tour { "tour-with-cluster" } else { "" } });
         }
     }
     if m.order_is_hard() {
@@ -600,6 +604,27 @@ fn check_tour_inner(m: &PModel, ti: usize, t: &STour, assign: &BTreeMap<usize, u
                 }
             }
         }
+        // commute inside a clustered stop: the vehicle stays at the stop location, the activity is reached on foot
+        // (clustering profile) from the location the commute names
+        let in_cluster = f.stop.acts.iter().any(|x| x.has_commute);
+        if in_cluster {
+            probes.clustered_acts += 1;
+            if let Some(cmx) = m.clustering_profile.as_ref().and_then(|p| m.matrices.get(p)) {
+                for (from, to, reported) in [(a.commute_fwd.and_then(|c| c.0), Some(loc), a.commute_fwd.map(|c| c.1)), (Some(loc), a.commute_bck.and_then(|c| c.0), a.commute_bck.map(|c| c.1))] {
+                    if let (Some(from), Some(to)) = (from, to) {
+                        if from < cmx.n && to < cmx.n && from != to {
+                            let flagged = cmx.err.as_ref().is_some_and(|e| e[from * cmx.n + to] > 0);
+                            if flagged || reported.is_some_and(|d| d < 0.0) {
+                                out.push(Issue { prop: F, rule: "unreachable-leg", msg: format!("tour {ti}: commute {from}->{to} of '{}' is flagged unreachable (reported distance {:?})", a.job_id, reported), tag: "commute-leg" });
+                            }
+                        }
+                    }
+                }
+            }
+        }
+        let place_loc = loc;
+        let loc = if in_cluster { f.stop.loc.filter(|l| *l < n).unwrap_or(loc) } else { loc };
+        let _ = place_loc;
         // travel
         let raw_dur = mx.dur[prev_loc * n + loc];
         let raw_dist = mx.dist[prev_loc * n + loc];
@@ -608,7 +633,7 @@ fn check_tour_inner(m: &PModel, ti: usize, t: &STour, assign: &BTreeMap<usize, u
             probes.unreachable_checked += 1;
         }
         if flagged || (mx.err.is_some() && (raw_dur < 0 || raw_dist < 0)) {
-            issue(out, F, "unreachable-leg", format!("tour {ti} drives flagged leg {prev_loc}->{loc}"));
+            out.push(Issue { prop: F, rule: "unreachable-leg", msg: format!("tour {ti} drives flagged leg {prev_loc}->{loc}"), tag: if clustered_tour { "tour-with-cluster" } else { "" } });
             time_ok = false;
         }
         let travel = raw_dur as f64 * vt.scale;
@@ -784,7 +809,9 @@ fn check_tour_inner(m: &PModel, ti: usize, t: &STour, assign: &BTreeMap<usize, u
                                 && (at + 1..flat.len()).any(|di| matches!((task_of(di), matched[pi]), (Some((_, task)), Some((ji, _))) if task.kind == TaskKind::Delivery && matched[di].map(|x| x.0) == Some(ji)))
                         });
                         let rule = if carried { "capacity-carried-over-reload" } else { "capacity" };
-                        issue(out, F, rule, format!("tour {ti} ({}): load {:?} vs capacity {:?} at activity {at} ({})", t.vehicle_id, load, vt.capacity, flat[at].act.job_id));
+                        // the overloaded activity belongs to an expanded cluster (it carries commute information)
+                        let tag = if flat[at].act.has_commute { "cluster-activity" } else { "" };
+                        out.push(Issue { prop: F, rule, msg: format!("tour {ti} ({}): load {:?} vs capacity {:?} at activity {at} ({})", t.vehicle_id, load, vt.capacity, flat[at].act.job_id), tag });
                         return;
                     }
                     if load[d] == cap && cap > 0 {
